@@ -11,8 +11,11 @@ Reading guide
 * `wf true G t`         : every node of `t` is an instance of an EBNF production (strict)
 * `wf false G t`        : the same with the relaxations L1–L3 (see `EPV.Syn.wf`)
 * `derivable G k t`     : `t` is a derivation from the level-`k` nonterminal
+* `guardsPass T t`      : no `led`/`nud` of the table rejects a node of `t` (kinds, closers, `deny`, `rhs`)
 -/
 import EPV.Lemmas.PrattDerive
+import EPV.Lemmas.PrattComplete
+import EPV.Lemmas.PrattFuel
 namespace EPV.C04
 open EPV.Syn EPV.Pratt
 
@@ -95,5 +98,59 @@ theorem pratt_derives_strict (T : Tbl) (G : Gram) (bp : Nat → Nat) (K : Nat) (
   have := (pratt_derives T G bp K hc toks t h).1
   simp only [derivableR, Bool.and_eq_true, decide_eq_true_eq] at this
   simp [derivable, strict_iff_relaxed_laxFree, this.2, hl]
+
+theorem need_le_yield : ∀ t : Tree, need t ≤ t.yield.length := by
+  intro t
+  induction t with
+  | nil => simp [need]
+  | atom => simp [need, Tree.yield]
+  | group g c e ih => simp [need, Tree.yield]; omega
+  | pre p x ih => simp [need, Tree.yield]; omega
+  | bin o l r ihl ihr => simp [need, Tree.yield]; omega
+  | typed o l n ih => simp [need, Tree.yield]; omega
+  | post o c l e ihl ihe => simp [need, Tree.yield]; omega
+
+/-- **completeness** (`pratt_complete`): if the table realises the level table, every EBNF derivation `t`
+from the start symbol whose nodes pass the table's guards is returned by the parser on the tokens of `t` —
+the parser groups every EBNF-valid input exactly as the grammar prescribes.  Any tree size; the fuel that
+`parse` supplies is enough. -/
+theorem pratt_complete (T : Tbl) (G : Gram) (bp : Nat → Nat) (K : Nat) (hc : Consistent T G bp K)
+    (hpos : 0 < bp 0) (t : Tree) (hd : derivable G 0 t = true) (hg : guardsPass T t = true) :
+    parse T t.yield = .ok t := by
+  simp only [derivable, Bool.and_eq_true, decide_eq_true_eq] at hd
+  have h := complete_all hc hpos (need t) t (Nat.le_refl _) hd.2 hg 0 0 (Nat.zero_le _)
+    (adm_zero hc hpos) [] (by simp [headLe]) (2 * t.yield.length + 2) (by have := need_le_yield t; omega)
+  simp only [List.append_nil] at h
+  simp [parse, h]
+
+/-- consequence: the operator fragment of the EBNF is unambiguous — two derivations (that the table's guards
+let pass) with the same token sequence are the same tree. -/
+theorem ebnf_unambiguous (T : Tbl) (G : Gram) (bp : Nat → Nat) (K : Nat) (hc : Consistent T G bp K)
+    (hpos : 0 < bp 0) (t₁ t₂ : Tree) (h₁ : derivable G 0 t₁ = true) (h₂ : derivable G 0 t₂ = true)
+    (g₁ : guardsPass T t₁ = true) (g₂ : guardsPass T t₂ = true) (hy : t₁.yield = t₂.yield) : t₁ = t₂ := by
+  have e₁ := pratt_complete T G bp K hc hpos t₁ h₁ g₁
+  have e₂ := pratt_complete T G bp K hc hpos t₂ h₂ g₂
+  rw [hy, e₂] at e₁
+  simpa using e₁.symm
+
+/-- consequence (`source` round trip on the operator fragment): re-parsing the tokens of a parse result
+gives the same tree. -/
+theorem parse_yield_idem (T : Tbl) (toks : List Tok) (t : Tree) (h : parse T toks = .ok t) :
+    parse T t.yield = .ok t := by
+  rw [pratt_yield T toks t h]; exact h
+
+/-- the model never runs out of fuel: an error of `parse` is a syntax error of the modelled parser (or the use
+of an unmodelled symbol), for token lists of any length. -/
+theorem parse_fuel_enough (T : Tbl) (toks : List Tok) : parse T toks ≠ .error .fuel := by
+  have h := (no_fuel_error T (2 * toks.length + 2)).1 0 toks (by omega)
+  unfold parse
+  split
+  · simp
+  · simp
+  · rename_i e he
+    intro hh
+    simp only [Except.error.injEq] at hh
+    subst hh
+    exact h he
 
 end EPV.C04
